@@ -90,7 +90,7 @@ def _ring_or_box(r: random.Random, n_labels: int, wide: float) -> Dict[str, Any]
     }
 
 
-def gen_scenario(r: random.Random, task: Optional[str] = None, n_frames: Optional[int] = None, big: bool = False, fp_share: Optional[float] = None, overrides: Optional[Dict[str, Any]] = None, det: Optional[Dict[str, Any]] = None, categories: Optional[List[str]] = None, target: Optional[List[str]] = None, merge: Optional[bool] = None, fast_ego: bool = False) -> Scenario:
+def gen_scenario(r: random.Random, task: Optional[str] = None, n_frames: Optional[int] = None, big: bool = False, fp_share: Optional[float] = None, overrides: Optional[Dict[str, Any]] = None, det: Optional[Dict[str, Any]] = None, categories: Optional[List[str]] = None, target: Optional[List[str]] = None, merge: Optional[bool] = None, fast_ego: bool = False, dt_us: Optional[int] = None) -> Scenario:
     task = task or r.choice(["detection", "detection", "tracking", "fp_validation"])
     n_frames = n_frames or r.randint(1, 4 if not big else 8)
     wide = r.choice([30.0, 60.0, 100.0])
@@ -106,7 +106,9 @@ def gen_scenario(r: random.Random, task: Optional[str] = None, n_frames: Optiona
         ego_yaw = G.wrap_pi(r.choice([0.0, 0.0, math.pi / 2, -math.pi / 2, math.pi]) + r.choice([-1, 1]) * 10 ** r.uniform(-4, -2.05))
         ego_yawrate = r.uniform(-1, 1) * 1e-3
     t0 = 1_600_000_000_000_000 + r.randint(0, 10**9)
-    dt = r.choice([100_000, 100_000, 50_000, 500_000])
+    dt = r.choice([100_000, 100_000, 50_000, 500_000, 100_000, 1_500_000, 2_500_000])  # (sparse key frames: gaps above a second)
+    if dt_us is not None:
+        dt = dt_us
     _merge_default = r.random() < 0.3
     merge = _merge_default if merge is None else merge
 
